@@ -93,7 +93,7 @@ fn gen_script(ch: &mut Choices) -> Script {
     }
 }
 
-fn gen_case(ch: &mut Choices) -> Case {
+pub fn gen_case(ch: &mut Choices) -> Case {
     let ncaps = 1 + ch.below(3);
     let mut a = gen_side(ch, ncaps);
     let mut b = gen_side(ch, ncaps);
@@ -354,7 +354,7 @@ fn mux_cfg(s: &SideCfg) -> MuxConfig {
     }
 }
 
-fn check(case: &Case, st: &mut Stats) -> Result<(), String> {
+pub fn check(case: &Case, st: &mut Stats) -> Result<(), String> {
     det::run(|| async {
         let life = det::Life::new();
         let ctx = life.child();
@@ -536,7 +536,7 @@ pub struct FloodCase {
     drain: bool,
 }
 
-fn gen_flood(ch: &mut Choices) -> FloodCase {
+pub fn gen_flood(ch: &mut Choices) -> FloodCase {
     let read_frame_size = ch.pick(&[16u64, 100, 1000, 4096, 16384]);
     let cfg = SideCfg {
         read_frame_size,
@@ -597,7 +597,7 @@ fn mux_handshake_frame(accept: &[(u64, u32)], connect: &[(u64, u32)]) -> Vec<u8>
     f
 }
 
-fn check_flood(case: &FloodCase, st: &mut Stats) -> Result<(), String> {
+pub fn check_flood(case: &FloodCase, st: &mut Stats) -> Result<(), String> {
     det::run(|| async {
         let life = det::Life::new();
         let ctx = life.child();
